@@ -258,6 +258,8 @@ def run(cx):
     # handshake / disconnect retries come due in time order: the timer heap is earliest-first
     from props.shared import heap_order
     heap_order(cx, "C10.j", ["event"])
+    from props.shared import active_timeout_sweep
+    active_timeout_sweep(cx, "C10.k")
 
 
 SELFTEST = [
